@@ -81,9 +81,11 @@ class Source:
                 t = ast.parse(self.text(rel), filename=rel)
             except SyntaxError as e:
                 raise AnalysisError(f'cannot parse {rel}: {e}')
+            _single = (ast.expr_context, ast.operator, ast.unaryop, ast.cmpop, ast.boolop)
             for node in ast.walk(t):
                 for ch in ast.iter_child_nodes(node):
-                    ch._parent = node
+                    if not isinstance(ch, _single):      # those are interpreter-wide singletons: never hang a tree on them
+                        ch._parent = node
             self._tree[rel] = t
         return self._tree[rel]
 
